@@ -17,10 +17,10 @@ chk("C15", "exhaustive enumeration of the finite key-subset x type x extras x or
     "The whole rule table is finite: all 2^10 subsets of the kind-determining keys x 13 `type` values x 7 extra-key sets x key orders, as a top-level step and inside a group, plus all scalar step strings of a small alphabet, are parsed by the real code and compared with the documented table (dynamic step type, warning-ness, sentinel error). Fully enumerated, no sampling.",
     "Values are well-typed so that no unmarshalling fallback interferes; non-string `type` outside the table.", "DESIGN.md §3 C15")
 chk("C17", "exhaustive enumeration of all token strings up to a length bound vs. hand-written reference canonicaliser",
-    "Every concatenation of <=4/5 tokens over a 24-token alphabet covering all documented source forms is classified by an independent reference and FullSource, its idempotence and the marshalled plugin key are compared on the real code. Exhaustive within the bound.",
+    "Every concatenation of <=5/6 tokens over a 24-token alphabet covering all documented source forms is classified by an independent reference and FullSource, its idempotence and the marshalled plugin key are compared on the real code. Exhaustive within the bound.",
     "Strings outside the documented forms are only checked for no-panic; alphabet and length are bounded.", "DESIGN.md §3 C17")
 chk("C18", "exhaustive enumeration of finite key-form x algorithm and key-set x requested-id tables on the real validator/loader",
-    "12 key forms x every algorithm name jwx registers (+none/unknown/empty/missing), via Set and via JSON parse, against the allow-list; generated key pairs validate; 6x6 sign/verify matrix accepts exactly the diagonal; every key-set file of <=3 keys over ids {a,b,none} x valid/invalid x requested id. Fully enumerated.",
+    "12 key forms x every algorithm name jwx registers (+none/unknown/empty/missing), via Set and via JSON parse, against the allow-list; generated key pairs validate; 6x6 sign/verify matrix accepts exactly the diagonal; every key-set file of <=3 keys (both tiers) over ids {a,b,none} x valid/invalid x requested id. Fully enumerated.",
     "Cryptography treated as a black box; duplicate ids of mixed validity not asserted.", "DESIGN.md §3 C18")
 chk("C11", "exhaustive small-scope enumeration of (matrix, permutation) pairs on the real validator vs. the statement's predicate, all map-iteration orders via seam",
     "All matrices of the small scope (anonymous / <=2-3 named dimensions, value lists incl. empty, 0-2 adjustments incl. malformed, every skip kind, nil matrix) x all candidate permutations incl. wrong arity and unknown dimensions, built directly and through Parse; verdict == predicate, rejected permutations leave a deep snapshot unchanged; for a 2-dimension sub-scope every order of the four map range loops is explored through the iteration seam and the verdict must not vary.",
@@ -41,7 +41,7 @@ chk("C09", "stateless choice-DFS over documents + exhaustive string alphabet at 
     "YAML leg excludes multi-line strings starting with (Unicode) whitespace and the key '<<' (emitter limits); plugin source positions excluded (C17's domain).", "DESIGN.md §3 C09")
 
 chk("C04", "stateless choice-DFS over documents with every string instrumented + fault injection at every position + exhaustive map-iteration-order exploration through the seam, generic single-pass oracle",
-    "Every string (keys and values) of every generated document (<=2/3 deviations), of base documents incl. alias-shared subtrees and 11-entry maps carries a unique marker with a reference and both escape spellings; the real Pipeline.Interpolate must equal the single-pass expansion mapped over the JSON tree before the call (all but signatures, order included); a failing expansion is injected at every position in turn and must be reported; every order / renamed-key-revisited answer of the library's map loops is explored (maps <=3 entries fully, bounded deviations beyond) and each execution must give the expected result.",
+    "Every string (keys and values) of every generated document (<=2/3 deviations), of base documents incl. alias-shared subtrees, chained renames ({\"$$X\":..,\"$X\":..}) and 11-entry maps carries a unique marker with a reference and both escape spellings; the real Pipeline.Interpolate must equal the single-pass expansion mapped over the JSON tree before the call (all but signatures, order included); a failing expansion is injected at every position in turn and must be reported; every order / renamed-key-revisited answer of the library's map loops is explored (maps <=3 entries fully, bounded deviations beyond) and each execution must give the expected result.",
     "Single-string expansion delegated to buildkite/interpolate; unique markers avoid name collisions; plugin sources are ./paths.", "DESIGN.md §3 C04")
 
 chk("C12", "exhaustive enumeration of token strings x positions x permutations on the real matrix interpolation vs. hand-written single-pass scanner, map-iteration orders via seam",
@@ -55,17 +55,17 @@ chk("C08", "exhaustive enumeration of key sequences x order-preserving positions
     "All 1957 permutations of all subsets of a 6-key alphabet (keys needing quotes, numeric/boolean look-alikes, the empty key) and all rotations/reversals of unsorted 10- and 17-key lists at each of 15 order-preserving positions, JSON and YAML input, with a `<<` merge at every index (source overlapping earlier and later explicit keys): output key order must equal input order with merged keys where the merge stood; unquoted numeric/bool keys canonicalised in place; programmatic maps with tombstones and 3-deep nesting round-trip through JSON and YAML to an ordered.Equal map.",
     "Legacy plugin mappings are covered by C03 because sources are canonicalised; key '<<' not generated on the YAML output leg.", "DESIGN.md §3 C08")
 chk("C13", "exhaustive enumeration of all token strings up to a length bound + type-error injection at every node of generated documents, on the real Parse; per-case journal for fatal crashes, watchdog for hangs",
-    "(i) every concatenation of <=5/6 tokens over a 22-token YAML/pipeline alphabet (5.4M / 118M strings); (ii) every generated document (<=1/2 deviations) and two base documents with each node replaced by each of 12 values, plus the un-injected documents: Parse must return without panic / fatal crash / hang, with a hard error or a pipeline (+warning); if usable: non-nil steps, one non-nil step per input entry (independent node-graph walk), recursively in groups, unknown steps verbatim, warning leaves >= unknown steps, JSON and YAML marshalling succeed.",
+    "(i) every concatenation of <=5/6 tokens over a 22-token YAML/pipeline alphabet (5.4M / 118M strings); (iii) the C07 anchor/merge grammar fed to Parse; (ii) every generated document (<=1/2 deviations) and two base documents with each node replaced by each of 12 values, plus the un-injected documents: Parse must return without panic / fatal crash / hang, with a hard error or a pipeline (+warning); if usable: non-nil steps, one non-nil step per input entry (independent node-graph walk), recursively in groups, unknown steps verbatim, warning leaves >= unknown steps, JSON and YAML marshalling succeed.",
     "'Any byte sequence' only within the token alphabet / injection grammar; .inf/.nan JSON marshalling is a listed known finding.", "DESIGN.md §3 C13")
 
 chk("C06", "exhaustive enumeration of all step forests up to a node bound on the real SignSteps",
-    "Every ordered forest of <=5/7 nodes over {command, other known step, unknown, group} (groups nested to depth 4) with rotating step-env variants and five pipeline envs is signed by the real SignSteps with all four key kinds (EdDSA everywhere): unknown anywhere => error; else every command step at every depth signed, verifying, key's algorithm, exact sorted field list (5 mandatory + env::N not shadowed); deep snapshot/JSON of the steps minus signatures and of the caller's env map unchanged.",
+    "Every ordered forest of <=6/8 nodes over {command, other known step, unknown, group} (groups nested to depth 4) with rotating step-env variants and five pipeline envs is signed by the real SignSteps with all four key kinds (EdDSA everywhere): unknown anywhere => error; else every command step at every depth signed, verifying, key's algorithm, exact sorted field list (5 mandatory + env::N not shadowed); deep snapshot/JSON of the steps minus signatures and of the caller's env map unchanged.",
     "Node bound; nothing asserted about partial signing on refusal.", "DESIGN.md §3 C06")
 chk("C01", "explicit-state BFS over a mutation graph of signed states on the real Verify vs. independent canonical semantic form",
     "From four signed initial states every single-point mutation at every position of the signed step JSON, the verification env, the repository URL, the signature record and the key is a transition; BFS to depth 2 (EdDSA; 1-2 for ES512, PS512, ES256 crypto.Signer), states deduplicated on the whole state; in every state Verify==nil must hold exactly when the harness's canonical form equals the signed one, the record is original and the key is the signing key (so semantic changes must fail, neutral re-spellings and reverts must pass).",
     "Cryptography black box; field-list permutation and base64 padding variants not generated; canonical form is the harness's reading of the statement.", "DESIGN.md §3 C01")
 chk("C14", "explicit-state BFS over the same mutation graph recording the library's payload bytes, class consistency by hash map, all map orders via seam",
-    "Payload bytes logged by Sign and Verify for every state of the depth-2 mutation graph over (step, pipeline env, repository URL, algorithm) incl. boundary shifts between adjacent fields, key/value, name/value, step-env vs pipeline-env: one byte string per canonical content class (must-collide), pairwise distinct across classes (must-differ), Sign payload == Verify payload, field list sorted; every order of Sign/Verify's map loops explored through the seam.",
+    "Payload bytes logged by Sign and Verify for every state of the depth-2 mutation graph over (step, pipeline env, repository URL, algorithm) incl. boundary shifts between adjacent fields, key/value, name/value, step-env vs pipeline-env: one byte string per canonical content class (must-collide), pairwise distinct across classes (must-differ), Sign payload == Verify payload, field list sorted, payload independent of earlier Sign calls sharing the env map; every order of Sign/Verify's map loops explored through the seam.",
     "Payload observed through WithDebugSigning; canonical form as C01.", "DESIGN.md §3 C14")
 chk("C02", "stateless choice-DFS over documents + string alphabet on signed positions + seam, full sign->marshal->re-parse->verify lifecycle on the real code",
     "Generated documents (signed-field shorthands open, <=1/2 deviations), all key kinds with/without interpolation on the <=1-deviation slice, the C09 string alphabet at every signed string position: Parse -> [Interpolate] -> SignSteps -> JSON and YAML -> Parse / CommandStep.UnmarshalJSON -> Verify of every command step with the signed pipeline env and with the re-parsed one, + unrelated variables; sign+marshal under explored map iteration orders.",
